@@ -312,6 +312,16 @@ class Analysis:
                 out[initnode.i] = (pi, bulk, members, lp)
         return out
 
+    @staticmethod
+    def _const_of(t):
+        """integer value of a constant bulk term (n, or c*n), else None"""
+        if isinstance(t, tuple) and t and t[0] == "int":
+            return t[1]
+        if isinstance(t, tuple) and len(t) == 4 and t[0] == "bin" and t[1] == "*" and \
+                isinstance(t[2], tuple) and isinstance(t[3], tuple) and t[2][0] == "int" and t[3][0] == "int":
+            return t[2][1] * t[3][1]
+        return None
+
     def _mul(self, c, t):
         a, b = ("int", c), t
         if repr(b) < repr(a):
@@ -451,16 +461,25 @@ class Analysis:
             # bulk access of a counted loop: needs `bulk` bytes now, then the cursor is past them
             pi, bulk, members, lp = self.loops[e.i]
             f = st[0].get(pi, {})
-            kk = f.get(bulk)
-            ok = kk is not None and kk >= 0
-            if record:
-                self.loop_result[e.i] = (ok, dict(f), bulk)
-            facts = st[0]
-            new = {}
-            for t, k2 in f.items():
-                if t == bulk:
-                    new[None] = max(new.get(None, 0), k2)
-            facts[pi] = new
+            cbulk = self._const_of(bulk)
+            if cbulk is not None:
+                # a loop with a constant trip count consumes a constant number of bytes
+                have = f.get(None, 0)
+                ok = have >= cbulk
+                if record:
+                    self.loop_result[e.i] = (ok, dict(f), bulk)
+                st[0][pi] = {None: have - cbulk} if ok and have - cbulk > 0 else {}
+            else:
+                kk = f.get(bulk)
+                ok = kk is not None and kk >= 0
+                if record:
+                    self.loop_result[e.i] = (ok, dict(f), bulk)
+                facts = st[0]
+                new = {}
+                for t, k2 in f.items():
+                    if t == bulk:
+                        new[None] = max(new.get(None, 0), k2)
+                facts[pi] = new
         if e.i in self.loop_members:
             init_id = self.loop_members[e.i]
             pi, bulk, members, lp = self.loops[init_id]
